@@ -195,8 +195,10 @@ def cut_reach(cfg, start, cut_edge=None, cut_node=None, follow_exc=True):
     predicates are removed."""
     seen = {start}
     stack = [start]
+    C.STATS['queries'] += 1
     while stack:
         cur = stack.pop()
+        C.STATS['visited'] += 1
         if cut_node is not None and cur is not start and cut_node(cur):
             continue
         for edge in cur.succ:
@@ -242,8 +244,10 @@ def find_path(start, goals, cut_edge=None, cut_node=None, follow_exc=True):
 
     for edge in start.succ:
         push(edge)
+    C.STATS['queries'] += 1
     while queue:
         cur = queue.popleft()
+        C.STATS['visited'] += 1
         if cur in goals:
             path = []
             node = cur
